@@ -159,11 +159,19 @@ CancelF(b, id) ==
        [b1 EXCEPT !.orders[id + 1].status = "Cancelled",
                   !.orders[id + 1].end = b.now]
 
+\* Known finding F3 (C12) as a named deviation.  The property says an off-grid price is never accepted; the code's
+\* modify_order has no grid check.  With FollowF3 = FALSE (the default, the property) a modify request with an off-grid price
+\* changes nothing; with FollowF3 = TRUE (substituted in the configs of the stages that submit such requests) the
+\* specification does what the code does, so that the rest of such a history is still checked clause by clause and state by
+\* state - the deviation itself then shows as a failure of C12_OnGrid on the specification's OWN state, which is how the
+\* known finding is recognised (never by the mere presence of such a request in a history).
+FollowF3 == FALSE
+
 \* which branch modify_order takes
 ModKind(b, id, np, nv) ==
   IF O(b, id).status # "Active" THEN "noop"
   ELSE IF np = None /\ nv = None THEN "noop"
-  ELSE IF np # None /\ ~OnGrid(b, np) THEN "noop"   \* C12: an off-grid price is never accepted
+  ELSE IF np # None /\ ~OnGrid(b, np) /\ ~FollowF3 THEN "noop"   \* C12: an off-grid price is never accepted
   ELSE IF np = None /\ nv < O(b, id).vol THEN "reduce"
   ELSE "replace"
 
